@@ -616,6 +616,10 @@ func c01Input(r *mc.R, st *c01Stats, part string, in []byte, only []reflect.Type
 
 var c01Alphabet = []byte{0x00, 0x01, 0x7f, 0x80, 0x81, 0x82, 0xb7, 0xb8, 0xb9, 0xbf, 0xc0, 0xc1, 0xc2, 0xc3, 0xf7, 0xf8, 0xf9, 0xff}
 
+// c01TagAlphabet (part a) drops b9/bf/f9: multi-byte length tags can never be completed inside a 6-byte string, the
+// header sweep (b) and the mutations (d, full alphabet) exercise them instead.
+var c01TagAlphabet = []byte{0x00, 0x01, 0x7f, 0x80, 0x81, 0x82, 0xb7, 0xb8, 0xc0, 0xc1, 0xc2, 0xc3, 0xf7, 0xf8, 0xff}
+
 var c01UintAlphabet = []uint64{0, 1, 127, 128, 255, 256, 65535, 65536, 1<<32 - 1, 1 << 32, 1<<64 - 1}
 
 func c01ByteStrings() [][]byte {
@@ -810,6 +814,7 @@ func c01HeaderSweep(n int) [][]byte {
 	}{
 		{0x80, bytes.Repeat([]byte{'x'}, n)},
 		{0x80, bytes.Repeat([]byte{0x80}, n)},
+		{0x80, append(make([]byte, min(n, 1)), bytes.Repeat([]byte{'x'}, max(n-1, 0))...)}, // leading zero byte: never an integer
 		{0xc0, bytes.Repeat([]byte{0x01}, n)},
 		{0xc0, bytes.Repeat([]byte{0x80}, n)},
 	}
@@ -845,17 +850,19 @@ func TestVerif_C01(t *testing.T) {
 	mc.Run(t, "C01", func(r *mc.R) {
 		fullLen := mc.Pick(r, 2, 3)
 		alphaLen := mc.Pick(r, 5, 6)
+		alphabet := c01TagAlphabet
 		r.Rule("case = one input byte string, checked against every target type (typed decode accept/reject + value + bit-for-bit " +
 			"re-encoding vs the spec reference) and through Split/SplitString/SplitList/SplitUint64/CountValues/SplitListValues vs " +
 			"Stream vs reference. Inputs: (a) ALL byte strings of length<=full_len over 256 values and all strings of length<=alpha_len " +
-			"over the 18-byte RLP tag alphabet; (b) header sweep: canonical and every non-canonical header for payload lengths at the " +
+			"over a 15-byte RLP tag alphabet; (b) header sweep: canonical and every non-canonical header for payload lengths at the " +
 			"55/56, 255/256, 65535/65536 boundaries; (c) every value of the bounded value sets of each type (encode vs reference " +
 			"encoder, decode back); (d) every single-edit mutation of every encoding from (c), decoded as the value's own type, " +
 			"interface{} and RawValue; (e) AppendUint64/IntSize for all x<2^17 and all 2^k-1,2^k,2^k+1. " +
 			"distinct = distinct accepted (type, value) pairs")
 		r.Bound("full_len", fullLen)
 		r.Bound("alpha_len", alphaLen)
-		r.Bound("alphabet", hex.EncodeToString(c01Alphabet))
+		r.Bound("alphabet", hex.EncodeToString(alphabet))
+		r.Bound("mutation_alphabet", hex.EncodeToString(c01Alphabet))
 		names := []string{}
 		for _, t := range c01Types {
 			names = append(names, t.String())
@@ -881,9 +888,9 @@ func TestVerif_C01(t *testing.T) {
 			}
 		}
 		for l := fullLen + 1; l <= alphaLen; l++ {
-			for f := range c01Alphabet {
-				for g := range c01Alphabet {
-					shards = append(shards, shard{c01Alphabet, l, []int{f, g}})
+			for f := range alphabet {
+				for g := range alphabet {
+					shards = append(shards, shard{alphabet, l, []int{f, g}})
 				}
 			}
 		}
